@@ -254,6 +254,130 @@ func checkC14(c *Ctx) {
 	c.c14Routes()
 	c.c14Fields(handlers)
 	c.c14ServeHTTP()
+	c.c14ParsedIndex(handlers)
+}
+
+// c14ParsedIndex: a number parsed from the request and used as an index must be checked
+// against the length of what it indexes, and the checked value must be the parsed value
+// (a narrowing or sign-changing conversion before the comparison lets a huge number pass
+// the check as a small or negative one; the index expression then panics the handler and
+// net/http drops the connection).
+func (c *Ctx) c14ParsedIndex(handlers []*ssa.Function) {
+	r, p := c.R, c.P
+	r.Rule("C14/PANIC/parsed-index", "in the web handlers an index derived from a strconv parse result is dominated by a comparison of that result with len() of the indexed value, with no value-changing conversion on either use (int and uint count as 32 bits, the smallest the language guarantees)")
+	seen := map[*ssa.Function]bool{}
+	var fns []*ssa.Function
+	for _, h := range handlers {
+		for fn := range p.SyncReach(h) {
+			if !seen[fn] && (strings.HasSuffix(eng.FuncPkgPath(fn), "/pkg/rest") || strings.HasSuffix(eng.FuncPkgPath(fn), "/pkg/webui")) {
+				seen[fn] = true
+				fns = append(fns, fn)
+			}
+		}
+	}
+	sortFuncs(fns)
+	parseOf := func(v ssa.Value) *ssa.Call {
+		for {
+			switch x := v.(type) {
+			case *ssa.Convert:
+				v = x.X
+				continue
+			case *ssa.ChangeType:
+				v = x.X
+				continue
+			}
+			break
+		}
+		e, ok := v.(*ssa.Extract)
+		if !ok || e.Index != 0 {
+			return nil
+		}
+		call, ok := e.Tuple.(*ssa.Call)
+		if !ok {
+			return nil
+		}
+		switch eng.CalleeName(call.Common()) {
+		case "strconv.Atoi", "strconv.ParseInt", "strconv.ParseUint":
+			return call
+		}
+		return nil
+	}
+	sameContainer := func(a, b ssa.Value) bool {
+		if a == b || eng.SameLoadNoDom(a, b) {
+			return true
+		}
+		ca, ok1 := a.(*ssa.Call)
+		cb, ok2 := b.(*ssa.Call)
+		if ok1 && ok2 && eng.CalleeObj(ca.Common()) != nil && eng.CalleeObj(ca.Common()) == eng.CalleeObj(cb.Common()) {
+			ra, rb := ca.Call.Args, cb.Call.Args
+			if ca.Call.IsInvoke() {
+				return ca.Call.Value == cb.Call.Value
+			}
+			return len(ra) > 0 && len(rb) > 0 && ra[0] == rb[0]
+		}
+		return false
+	}
+	n := 0
+	ord := map[string]int{}
+	for _, fn := range fns {
+		fn := fn
+		eng.EachInstr(fn, func(in ssa.Instruction) {
+			var base, idx ssa.Value
+			switch x := in.(type) {
+			case *ssa.IndexAddr:
+				base, idx = x.X, x.Index
+			case *ssa.Index:
+				base, idx = x.X, x.Index
+			default:
+				return
+			}
+			pc := parseOf(idx)
+			if pc == nil {
+				return
+			}
+			n++
+			cons := siteCons(p, in, ord, "index")
+			if why := lossyParsedConv(idx); why != "" {
+				r.Bad("C14/PANIC/parsed-index", cons, p.InstrPos(in), "the index is a value-changing conversion of the parsed number (%s)", why)
+				return
+			}
+			guard, lossy := false, ""
+			for _, b := range fn.Blocks {
+				for k := 0; k < len(b.Succs) && len(b.Succs) == 2; k++ {
+					rel, ok := eng.EdgeRel(b, k)
+					if !ok || !eng.EdgeDominates(b, k, in.Block()) {
+						continue
+					}
+					x, y := rel.X, rel.Y
+					if eng.LenOf(x) != nil {
+						rel = rel.Swap()
+						x, y = rel.X, rel.Y
+					}
+					lb := eng.LenOf(y)
+					if lb == nil || parseOf(x) != pc || !sameContainer(lb, base) {
+						continue
+					}
+					if rel.Op != token.LSS {
+						continue
+					}
+					if why := lossyParsedConv(x); why != "" {
+						lossy = why
+						continue
+					}
+					guard = true
+				}
+			}
+			switch {
+			case guard:
+				r.Ok("C14/PANIC/parsed-index", cons, p.InstrPos(in), "dominated by parsed < len(container) without a value-changing conversion")
+			case lossy != "":
+				r.Bad("C14/PANIC/parsed-index", cons, p.InstrPos(in), "the bounds check compares a converted copy of the parsed number (%s) while the index uses the number itself: a value that wraps to a small or negative number passes the check and the index expression panics, so the connection is dropped instead of answered", lossy)
+			default:
+				r.Bad("C14/PANIC/parsed-index", cons, p.InstrPos(in), "no dominating comparison of the parsed number with the length of the indexed value")
+			}
+		})
+	}
+	r.Floor("C14/PANIC/parsed-index", "request-derived indices in the web handlers", n, 1)
 }
 
 // c14ServeHTTP confirms the assumption that a handler error is answered with 500.
